@@ -23,7 +23,7 @@ TECHNIQUE = (
 ASSUMPTIONS = [
     "Window confinement is decided for the index expressions passed to the backing path's validators; element writes through Subpath.__getitem__ use _numeric_index, whose range is not bounded statically (negative indices) and is reported as not decided.",
 ]
-FLOORS = {"R16.1": 6, "R16.2": 6, "R16.3": 2}
+FLOORS = {"R16.1": 6, "R16.2": 6, "R16.3": 2, "R16.5": 3}
 
 SEGMENTS = ["Move", "Line", "Close", "QuadraticBezier", "CubicBezier", "Arc"]
 
@@ -33,9 +33,11 @@ def run(ctx):
     ctx.rule("R16.2", "order of subpaths and fixed Move/Close positions")
     ctx.rule("R16.3", "window confinement of subpath writes")
     ctx.rule("R16.4", "cache coherence of reversal")
+    ctx.rule("R16.5", "reversal does not assume that a (sub)path begins with its own Move")
     per_class(ctx)
     order(ctx)
     window(ctx)
+    moveless(ctx)
     pinfo, sinfo, inv = cachecoh.invalidating(ctx)
     for cname, name in (("Path", "reverse"), ("Subpath", "reverse"), ("Subpath", "_reverse_segments")):
         ctx.ob("R16.4", "%s.%s" % (cname, name), (cname, name) in inv, "", 0, "reversal changes every fraction of the path: the cached lengths must be dropped")
@@ -406,3 +408,39 @@ def window(ctx):
             ctx.ob("R16.3", "Subpath._reverse_segments[validate_connection(%s)]" % label, off == 0 and not any(k.arg == "prefer_second" for k in c.keywords),
                    "links the segment after the window to the new last end (first-authority)", c.lineno,
                    "the connection after the last reversed segment must give authority to the reversed segment (only the follower's start is adjusted)")
+
+
+# --------------------------------------------------------------------------- R16.5
+def moveless(ctx):
+    """The property's domain includes path fragments without a leading move and subpaths that begin right after a close.  Three
+    places in the reversal code treat segment 0 of the (sub)path as a Move without asking:
+      * Path.reverse parks `segments[0].start` (None-ing it) and writes it back onto whatever is first afterwards;
+      * Path.reverse re-joins the reversed subpaths with the linking concatenation (`p += subpath`), which rewrites the start
+        of a first segment that is not a Move to the previous end;
+      * Subpath.reverse moves the subpath's starting point (the leading Move's end) when the close has non-zero length, and the
+        segment that follows the subpath without a Move of its own keeps the old position.
+    Each is accepted when an isinstance(..., Move) test dominates it (first two) or the successor is re-linked (third)."""
+    from ..flow import dominated
+
+    def is_move_test(test, positive):
+        return positive and isinstance(test, ast.Call) and call_name(test) == "isinstance" and len(test.args) == 2 and any(isinstance(x, ast.Name) and x.id == "Move" for x in ast.walk(test.args[1]))
+
+    pr = ctx.fn("Path.reverse", "R16.5")
+    stores = [st for st in stmts_in(pr.body) if isinstance(st, ast.Assign) and any(isinstance(t, ast.Attribute) and t.attr == "start" and isinstance(t.value, ast.Subscript)
+                                                                                 and isinstance(t.value.slice, ast.Constant) and t.value.slice.value == 0 for t in st.targets)]
+    bad = [st for st in stores if not dominated(st, pr, is_move_test)]
+    ctx.ob("R16.5", "Path.reverse[first segment's start parked]", not bad, "; ".join("line %d: %s" % (st.lineno, ast.unparse(st)[:50]) for st in bad), pr.lineno,
+           "for a fragment whose first segment is not a Move this destroys its first point (the None later becomes an end point) and the saved point is written onto the wrong segment")
+    joins = [st for st in stmts_in(pr.body) if (isinstance(st, ast.AugAssign) and isinstance(st.op, ast.Add)) or
+             (isinstance(st, ast.Expr) and isinstance(st.value, ast.Call) and isinstance(st.value.func, ast.Attribute) and st.value.func.attr in ("extend", "append"))]
+    joins = [st for st in joins if any(isinstance(l, ast.For) and any(st is x for x in ast.walk(l)) for l in ast.walk(pr))]
+    badj = [st for st in joins if not dominated(st, pr, is_move_test)]
+    ctx.ob("R16.5", "Path.reverse[subpaths re-joined by linking concatenation]", bool(joins) and not badj, "; ".join("line %d: %s" % (st.lineno, ast.unparse(st)[:50]) for st in badj) or "no join found", pr.lineno,
+           "a reversed subpath that has no Move of its own is welded onto whatever precedes it now: its far end is lost and a line that was never drawn appears")
+    sr = ctx.fn("Subpath.reverse", "R16.5")
+    moved = [st for st in stmts_in(sr.body) if isinstance(st, ast.Assign) and any(isinstance(t, ast.Attribute) and t.attr == "end" and isinstance(t.value, ast.Subscript) and isinstance(t.value.value, ast.Name)
+                                                                                 and t.value.value.id == "self" and isinstance(t.value.slice, ast.Constant) and t.value.slice.value == 0 for t in st.targets)]
+    relinks = [c for c in ast.walk(sr) if isinstance(c, ast.Call) and isinstance(c.func, ast.Attribute) and c.func.attr in ("_validate_connection", "validate_connections") and
+               (c.func.attr == "validate_connections" or any("end" in ast.unparse(a) for a in c.args))]
+    ctx.ob("R16.5", "Subpath.reverse[start point moved, successor not re-linked]", not moved or bool(relinks), "; ".join("line %d: %s" % (st.lineno, ast.unparse(st)[:50]) for st in moved), sr.lineno,
+           "reversing a closed subpath whose close has length moves its starting point; a following subpath without its own Move still starts at the old one and is cut off")
